@@ -63,15 +63,26 @@ class _PrependedReader:
 
     def read(self, size: int = -1) -> bytes:
         if not self._head:
-            return self._inp.read(size)
+            return self._read(size)
         if size < 0:
-            data = self._head + self._inp.read()
+            data = self._head + self._read(size)
             self._head = b""
             return data
         data, self._head = self._head[:size], self._head[size:]
         if len(data) < size:
-            data += self._inp.read(size - len(data))
+            data += self._read(size - len(data))
         return data
+
+    def _read(self, size: int) -> bytes:
+        try:
+            return self._inp.read(size)
+        except ValueError:
+            # Some sources (urllib3's HTTPResponse, i.e. requests' ``raw``) report
+            # ``closed`` as soon as their last byte was handed out; BufferedReader then
+            # refuses the read that would merely have discovered the end of the stream.
+            if self._inp.closed:
+                return b""
+            raise
 
 
 def frame_iterator(inp: IO[bytes]) -> Generator[jelly.RdfStreamFrame]:
